@@ -891,6 +891,20 @@ def gen_cases(rng, tier, n):
             bt, b = rng.choice(BASES[:6])
             mode = rng.choice(MODES)
             p = rng.choice([1, 2, 3, 5, 10, 19, 20, 38, 53, 64, 65, 100])
+            if rng.chance(1, 5):
+                # Ord of two floats of one base, both call directions: B^k + d against B^k (the digit-estimate shortcut of
+                # repr_cmp_same_base must not decide pairs the estimate cannot separate) and random pairs
+                kk = rng.range(1, 70)
+                dd = rng.choice([1, -1, 2, b - 1, b + 1, 0])
+                sg = rng.choice([1, -1])
+                xx, yy = (sg * (b ** kk + dd), 0), (sg, kk)
+                if rng.chance(1, 4):
+                    s_, e_ = gfloat(rng, b)
+                    yy = (s_, max(-80, min(80, e_)))
+                if rng.chance(1, 2):
+                    xx, yy = yy, xx
+                out.append("fcmp %s %s %s %s %s %s" % (bt, mode, hx(xx[0]), hx(xx[1]), hx(yy[0]), hx(yy[1])))
+                continue
             op = rng.choice(["fadd", "fsub", "fmul", "fdiv", "fsqrt", "fadd", "fmul", "fexp", "fln", "fpowi"])
             s1, e1 = gfloat(rng, b)
             s2, e2 = gfloat(rng, b)
